@@ -175,7 +175,10 @@ def main():
         scripts = keep
     cases = []
     for s in scripts:
-        obs = cl.run_script(s, with_lineage=False)
+        # some runs are a supervisor's retry, started from inside the except block that handles an earlier failure: nothing of
+        # what the run does or announces depends on that
+        s = dict(s, in_handler=rng.random() < 0.2)
+        obs = cl.run_script(s, with_lineage=False, in_handler=s['in_handler'])
         cl.life_oracle(run, s, obs, {'C08'})
         run.seen(('life', cl.script_lit(s)), nontrivial=any(o != 'ok' for _, o in cl.all_outcomes(s)))
         run.count('life:result=%s' % obs['result'])
